@@ -7,6 +7,7 @@ import (
 	"crypto/sha256"
 	"encoding/binary"
 	"encoding/hex"
+	"fmt"
 	"math/big"
 
 	"github.com/piotrnar/gocoin/client/common"
@@ -253,6 +254,25 @@ func Corpus(e *Env) []Case {
 		hash := btc.NewSha2Hash(sp[:80])
 		cm := cmpctMsg(sp, 3, vint(1), [][]byte{{1, 2, 3, 4, 5, 6}}, vint(1), []prefilled{{vint(0), cb}})
 		add("W:blocktxn-missing", "blocktxn", "cv2", cat(hash.Hash[:], vint(0)), Msg{"cmpctblock", H(cm)})
+	}
+	// a collector waiting for several transactions, answered with the right NUMBER of transactions of which
+	// one is repeated (a slot stays empty: the handler must notice before it assembles the block)
+	for _, k := range []int{2, 3} {
+		if sp := e.NextSpare(); sp != nil {
+			cb := blockTxs(sp)[0]
+			hash := btc.NewSha2Hash(sp[:80])
+			miss := blockTxs(e.Blocks[104])[1 : 1+k]
+			var sids [][]byte
+			for _, t := range miss {
+				var th btc.Uint256
+				th.Calc(t)
+				sids = append(sids, shortID(sp, uint64(10+k), th.Hash[:]))
+			}
+			cm := cmpctMsg(sp, uint64(10+k), vint(uint64(k)), sids, vint(1), []prefilled{{vint(0), cb}})
+			body := cat(miss[:k-1]...)
+			body = cat(body, miss[0]) // the last one replaced by a copy of the first
+			add(fmt.Sprintf("blocktxn-repeated-tx-%d", k), "blocktxn", "cv2", cat(hash.Hash[:], vint(uint64(k)), body), Msg{"cmpctblock", H(cm)})
+		}
 	}
 	if sp := e.NextSpare(); sp != nil {
 		cb := blockTxs(sp)[0]
